@@ -81,6 +81,12 @@ theorem pending_fallback_outside_breaker (cfg : Cfg) (s : State) (c : Nat) (r : 
   have hp := pollFalling_frame s r
   exact ⟨hp.1, hp.2.1, hp.2.2.1, hp.2.2.2.1, hp.2.2.2.2, rfl, rfl, rfl⟩
 
+theorem foldl_applyTask_core (l : List Bool) (t : State) :
+    core (l.foldl applyTask (core t)) = core (l.foldl applyTask t) := by
+  induction l generalizing t with
+  | nil => rfl
+  | cons u tl ih => exact ih (applyTask t u)
+
 /-- The breaker never depends on pending fallbacks: for every operation that is not the poll / drop of a caller
 waiting for its fallback — admissions and rejections of other callers (same handle or clones), completions and
 outcome recordings of calls admitted earlier, `state()` / `metrics()` probes, `force_open`, `force_closed`,
@@ -92,8 +98,10 @@ theorem breaker_ignores_pending_fallbacks (cfg : Cfg) (s : State) (op : Op)
   cases op with
   | adv ms => rfl
   | arrive c sc tag fb =>
-    simp only [stepS, show (core s).seen = s.seen from rfl]
-    split <;> rfl
+    simp only [stepS, show (core s).seen = s.seen from rfl, show (core s).gate = s.gate from rfl]
+    split
+    · rfl
+    · split <;> rfl
   | poll c =>
     have hn := h c (Or.inl rfl)
     simp only [stepS, show (core s).fresh = s.fresh from rfl, show (core s).falling = [] from rfl, hn]
@@ -116,6 +124,13 @@ theorem breaker_ignores_pending_fallbacks (cfg : Cfg) (s : State) (op : Op)
   | forceClosed => rfl
   | reset => rfl
   | views => rfl
+  | gate g => rfl
+  | trigger u => rfl
+  | elsewhere n => rfl
+  | yield =>
+    show core (runTasks (emit s [.manual "yield"])) = core (runTasks (emit (core s) [.manual "yield"]))
+    unfold runTasks
+    exact (foldl_applyTask_core _ _).symm
 
 /-- If a caller is admitted while the breaker is open, then `wait_duration_in_open` had elapsed
 and the breaker moved to half-open first (the admission's first event is that transition). -/
@@ -135,17 +150,49 @@ theorem admitted_from_open (cfg : Cfg) (s : State) (f : Fresh) (hst : s.circ.st 
   | trial h => rw [hst] at h; cases h
   | rejectHalf h => rw [hst] at h; cases h
 
-/-- The open state is left only by a manual `force_closed` / `reset`, or by the first poll of a
-caller once `wait_duration_in_open` has elapsed. Completions and cancellations of calls
-admitted earlier never close or half-open it. -/
+theorem foldl_applyTask_opened (l : List Bool) (t : State) (hl : ∀ u ∈ l, u = true) (ht : t.circ.st = .opened) :
+    (l.foldl applyTask t).circ.st = .opened := by
+  induction l generalizing t with
+  | nil => exact ht
+  | cons u tl ih =>
+    have hu : u = true := hl u (by simp)
+    subst hu
+    apply ih _ (fun u hu => hl u (by simp [hu]))
+    simp only [applyTask, emit_circ, if_true]
+    exact transitionTo_st ..
+
+/-- The open state is left only by a manual `force_closed` / `reset`, by the scheduler running the task of a
+`trigger_healthy()` health signal, or by the first poll of a caller once `wait_duration_in_open` has elapsed.
+Completions and cancellations of calls admitted earlier, the wrapped service becoming ready again, health triggers
+that have not been scheduled yet: none of them closes or half-opens it. -/
 theorem leaves_open_only_after_wait_or_manual (cfg : Cfg) (s : State) (op : Op)
     (hst : s.circ.st = .opened) (hleft : (stepS cfg s op).circ.st ≠ .opened) :
-    op = .forceClosed ∨ op = .reset ∨ ∃ c, op = .poll c ∧ s.now - s.circ.lastChange ≥ cfg.waitMs := by
+    op = .forceClosed ∨ op = .reset ∨ (op = .yield ∧ false ∈ s.pending) ∨
+      ∃ c, op = .poll c ∧ s.now - s.circ.lastChange ≥ cfg.waitMs := by
   cases op with
   | adv ms => exact absurd hst hleft
-  | arrive c sc tag fb => simp only [stepS] at hleft; split at hleft <;> exact absurd hst hleft
+  | arrive c sc tag fb =>
+    simp only [stepS] at hleft
+    split at hleft
+    · exact absurd hst hleft
+    · split at hleft <;> exact absurd hst hleft
+  | gate g => exact absurd hst hleft
+  | trigger u => exact absurd hst hleft
+  | elsewhere n => exact absurd hst hleft
+  | yield =>
+    by_cases hf : false ∈ s.pending
+    · right; right; left; exact ⟨rfl, hf⟩
+    · exfalso
+      apply hleft
+      show (runTasks (emit s [.manual "yield"])).circ.st = .opened
+      unfold runTasks
+      refine foldl_applyTask_opened s.pending _ ?_ hst
+      intro u hu
+      cases u with
+      | true => rfl
+      | false => exact absurd hu hf
   | poll c =>
-    right; right
+    right; right; right
     refine ⟨c, rfl, ?_⟩
     by_cases hw : s.now - s.circ.lastChange ≥ cfg.waitMs
     · exact hw
@@ -195,7 +242,7 @@ example :
                 .arrive 3 ⟨0, .ok⟩ 0, .poll 3, .adv 5, .poll 1]
     (run cfg ops).log.map (·.2) =
       [.manual "force_open", .transition .closed .opened, .fbCall 1, .fbCall 2, .result 2 (.fallback 2),
-       .views "views state=open sync=open is_open=1 mstate=open total=0 fail=0 succ=0 slow=0",
+       .views "views state=open sync=open is_open=1 mstate=open total=0 fail=0 succ=0 slow=0 http=503 health=unhealthy",
        .manual "force_closed", .transition .opened .closed, .innerCall 3 0, .innerDone 3 0 .ok, .result 3 (.ok 0),
        .result 1 (.fallback 1)] ∧
     (run cfg ops).falling.length = 0 := by decide
@@ -239,6 +286,113 @@ example :
     (run cfg (pre ++ [.adv 1, .arrive 2 ⟨1, .ok⟩ 0, .poll 2])).serial = 1 ∧
     (run cfg (pre ++ [.adv 1, .arrive 2 ⟨1, .ok⟩ 0, .poll 2, .adv 1099, .poll 2])).circ.st = .halfOpen ∧
     (run cfg (pre ++ [.adv 1, .arrive 2 ⟨1, .ok⟩ 0, .poll 2, .adv 1100, .poll 2])).circ.st = .closed := by
+  decide
+
+/-! ## Health signals (`HealthTriggerable`, cargo feature `health-integration`)
+
+`trigger_unhealthy()` / `trigger_healthy()` are synchronous: they spawn a task that takes the breaker's lock and applies
+`force_open` / `force_closed`. `Op.trigger` queues the task, `Op.yield` is the scheduler getting to the queued tasks; every
+theorem above already quantifies over all placements of both. -/
+
+/-- When a health trigger returns nothing has changed yet: not the state behind the mutex, not the lock-free view
+(`state_sync()` / `is_open()` / `http_status()`), not a call in flight. The breaker cannot be OBSERVED open before it IS open. -/
+theorem trigger_changes_nothing_yet (cfg : Cfg) (s : State) (u : Bool) :
+    (stepS cfg s (.trigger u)).circ = s.circ ∧ (stepS cfg s (.trigger u)).running = s.running ∧
+    (stepS cfg s (.trigger u)).fresh = s.fresh ∧ (stepS cfg s (.trigger u)).pending = s.pending ++ [u] :=
+  ⟨rfl, rfl, rfl, rfl⟩
+
+/-- When the scheduler runs the task it is exactly the operator's override: state, lock-free view and the instant of the
+change move together, in one critical section. -/
+theorem trigger_task_is_the_override (s : State) (u : Bool) :
+    (applyTask s u).circ = (transitionTo s.circ (if u then .opened else .closed) s.now).1 ∧
+    (applyTask s u).running = s.running ∧ (applyTask s u).fresh = s.fresh := ⟨rfl, rfl, rfl⟩
+
+/-- **Observed open through the lock-free view.** In every reachable state — whatever health signals were given, queued or
+applied, whatever the readiness of the wrapped service did — if `state_sync()` reports open (`is_open()`, `http_status() =
+503`, `health_status() = "unhealthy"`), the breaker IS open: no inner call has started since it opened, and a caller first
+polled before `wait_duration_in_open` has elapsed is answered at once with the open-circuit error / the fallback. -/
+theorem lockfree_view_open_shields (cfg : Cfg) (ops : List Op) (f : Fresh) (h : (run cfg ops).circ.mirror = .opened) :
+    callsSince (run cfg ops).log = 0 ∧
+    ((run cfg ops).now - (run cfg ops).circ.lastChange < cfg.waitMs →
+      pollFresh cfg (run cfg ops) f = rejected cfg (run cfg ops) f) := by
+  have hst : (run cfg ops).circ.st = .opened := by rw [← mirror_agrees]; exact h
+  exact ⟨open_shields cfg ops hst, fun hw => rejected_touches_nothing cfg _ f hst hw⟩
+
+/-- `http_status()` and `health_status()` are functions of the lock-free view, which is the state: 503 / "unhealthy" exactly
+when open, "degraded" exactly when half-open. -/
+theorem status_accessors_agree (cfg : Cfg) (ops : List Op) :
+    (httpStatus (run cfg ops).circ.mirror = 503 ↔ (run cfg ops).circ.st = .opened) ∧
+    (healthStatus (run cfg ops).circ.mirror = "unhealthy" ↔ (run cfg ops).circ.st = .opened) ∧
+    (healthStatus (run cfg ops).circ.mirror = "degraded" ↔ (run cfg ops).circ.st = .halfOpen) := by
+  rw [mirror_agrees]
+  cases (run cfg ops).circ.st <;> simp [httpStatus, healthStatus]
+
+/-! ## Readiness of the wrapped service -/
+
+/-- A request that arrives while the wrapped service is not ready (pending, or failing) never gets as far as the breaker:
+the caller is answered (`notready`, or the readiness error) and nothing else changes — no admission, no inner call. -/
+theorem not_ready_request_touches_nothing (cfg : Cfg) (s : State) (c : Nat) (sc : Step) (tag : Nat) (fb : Step)
+    (hg : s.gate ≠ .up) (hnew : s.seen.contains c = false) :
+    (stepS cfg s (.arrive c sc tag fb)).circ = s.circ ∧ (stepS cfg s (.arrive c sc tag fb)).running = s.running ∧
+    (stepS cfg s (.arrive c sc tag fb)).fresh = s.fresh ∧ (stepS cfg s (.arrive c sc tag fb)).serial = s.serial ∧
+    ∃ r, (stepS cfg s (.arrive c sc tag fb)).log = s.log ++ [(s.now, CEv.result c r)] := by
+  simp only [stepS, hnew, Bool.false_eq_true, if_false, if_neg hg]
+  exact ⟨rfl, rfl, rfl, rfl, _, rfl⟩
+
+/-- **Admission and the start of the inner call are one step.** The call future owns the instance of the wrapped service that
+`poll_ready` was called on; its first poll, if admitted, calls it there and then — whatever the readiness of the wrapped
+service has become in the meantime (`g`). There is no point between the admission decision and the inner call at which the
+future could be parked: an admitted call is inside the wrapped service from the instant it is admitted. -/
+theorem admitted_call_starts_at_once (cfg : Cfg) (s : State) (f : Fresh) (g : Gate)
+    (hok : (tryAcquire cfg s.circ s.now).2.1 = true) :
+    (admitStep cfg { s with gate := g } f).2 = true ∧
+    (admitStep cfg { s with gate := g } f).1.log =
+      s.log ++ (tryAcquire cfg s.circ s.now).2.2.map (fun e => (s.now, e)) ++ [(s.now, CEv.innerCall f.c s.serial)] := by
+  rw [admitStep_ok cfg { s with gate := g } f hok]
+  exact ⟨rfl, rfl⟩
+
+/-- The readiness of the wrapped service changing is no business of the breaker's. -/
+theorem readiness_change_touches_nothing (cfg : Cfg) (s : State) (g : Gate) :
+    (stepS cfg s (.gate g)).circ = s.circ ∧ (stepS cfg s (.gate g)).running = s.running ∧
+    (stepS cfg s (.gate g)).fresh = s.fresh ∧ (stepS cfg s (.gate g)).serial = s.serial := ⟨rfl, rfl, rfl, rfl⟩
+
+/-! ## Several services made from one layer value -/
+
+/-- Every `layer()` call makes a breaker of its own: an operation on service `k` leaves service `j ≠ k` exactly as it was —
+opening one never shields, or exposes, the wrapped service of another. -/
+theorem services_are_independent (cfg : Cfg) (m : Multi) (k j : Nat) (op : Op) (h : j ≠ k) :
+    (stepM cfg m k op).get j = m.get j := services_independent cfg m k j op h
+
+/-- … and each of them shields its own wrapped service: in every history over any number of services, whenever service `k` is
+open no inner call has been started through it since it opened, and its lock-free view says open exactly then. -/
+theorem open_shields_per_service (cfg : Cfg) (mops : List (Nat × Op)) (k : Nat) :
+    (((runM cfg mops).get k).circ.st = .opened → callsSince ((runM cfg mops).get k).log = 0) ∧
+    ((runM cfg mops).get k).circ.mirror = ((runM cfg mops).get k).circ.st := by
+  obtain ⟨ops, ho⟩ := every_service_is_a_run cfg mops k
+  rw [ho]
+  exact ⟨open_shields cfg ops, mirror_agrees cfg ops⟩
+
+/-- Non-vacuity. (a) A health signal: `trigger_unhealthy()` at 0 — a probe and a call right after it see a closed breaker
+(views agree, the call is admitted); the task runs; now the views say open and the next caller is rejected.
+(b) The wrapped service goes down after caller 1's `poll_ready`: caller 1's first poll still starts its inner call at once;
+caller 2, arriving while it is down, is turned away without touching the breaker. (c) Two services from one layer: service 1
+is forced open, service 0 still admits. -/
+example :
+    let cfg : Cfg := { size := 2, minCalls := 2, waitMs := 1000 }
+    let a := [Op.trigger true, .views, .arrive 1 ⟨0, .ok⟩ 0, .poll 1, .yield, .views, .arrive 2 ⟨0, .ok⟩ 0, .poll 2]
+    let b := [Op.arrive 1 ⟨5, .ok⟩ 0, .gate .down, .poll 1, .arrive 2 ⟨0, .ok⟩ 0, .forceOpen, .gate .up, .poll 1]
+    (run cfg a).log.map (·.2) =
+      [.manual "trigger_unhealthy",
+       .views "views state=closed sync=closed is_open=0 mstate=closed total=0 fail=0 succ=0 slow=0 http=200 health=healthy",
+       .innerCall 1 0, .innerDone 1 0 .ok, .result 1 (.ok 0), .manual "yield", .transition .closed .opened,
+       .views "views state=open sync=open is_open=1 mstate=open total=0 fail=0 succ=0 slow=0 http=503 health=unhealthy",
+       .result 2 .openCircuit] ∧
+    (run cfg b).log.map (·.2) =
+      [.manual "inner_down", .innerCall 1 0, .result 2 .notReady, .manual "force_open", .transition .closed .opened,
+       .manual "inner_up"] ∧
+    ((runM cfg [(1, .forceOpen), (0, .arrive 1 ⟨0, .ok⟩ 0), (0, .poll 1), (1, .arrive 2 ⟨0, .ok⟩ 0), (1, .poll 2)]).get 0).serial = 1 ∧
+    ((runM cfg [(1, .forceOpen), (0, .arrive 1 ⟨0, .ok⟩ 0), (0, .poll 1), (1, .arrive 2 ⟨0, .ok⟩ 0), (1, .poll 2)]).get 1).log.map (·.2)
+      = [.manual "force_open", .transition .closed .opened, .result 2 .openCircuit] := by
   decide
 
 end TR.Props.C03
